@@ -359,11 +359,14 @@ func (w *vfWorld) onWire(from int, raw []byte) {
 	w.mu.Lock()
 	w.nextPid++
 	pid := w.nextPid
-	p := &vfPkt{id: pid, from: from, raw: raw, t: int64(w.now())}
-	w.pend = append(w.pend, p)
+	w.mu.Unlock()
+	// the packet is logged before it becomes visible to whoever moves packets (a free-running
+	// network goroutine must never log a delivery before the transmission)
+	w.emitPkt("tx", from, pid, raw, nil)
+	w.mu.Lock()
+	w.pend = append(w.pend, &vfPkt{id: pid, from: from, raw: raw, t: int64(w.now())})
 	w.nWire++
 	w.mu.Unlock()
-	w.emitPkt("tx", from, pid, raw, nil)
 	w.poke()
 }
 
@@ -1102,14 +1105,22 @@ func (w *vfWorld) finish(closeAll bool) {
 
 // vfLeaked lists goroutines of the current bubble other than the caller that are still alive.
 func vfLeaked() []string {
-	buf := make([]byte, 1<<20)
+	buf := make([]byte, 1<<22)
 	n := runtime.Stack(buf, true)
 	var out []string
+	mine := ""
 	for k, g := range strings.Split(string(buf[:n]), "\n\n") {
 		if k == 0 {
-			continue // the caller
+			// the caller: remember which bubble this is ("..., synctest bubble N]:")
+			if i := strings.Index(g, "synctest bubble "); i >= 0 {
+				j := strings.Index(g[i:], "]")
+				if j > 0 {
+					mine = g[i : i+j]
+				}
+			}
+			continue
 		}
-		if !strings.Contains(g, "synctest bubble") {
+		if !strings.Contains(g, "synctest bubble") || (mine != "" && !strings.Contains(g, mine+"]")) {
 			continue
 		}
 		if strings.Contains(g, "[synctest.Run") || strings.Contains(g, "testingSynctestTest") || strings.Contains(g, "synctest.Test(") {
